@@ -271,11 +271,11 @@ theorem findJunction_cases (l : List Dev) (hopen : ∀ d ∈ l, 1 ≤ d.ports.op
     rcases topology_ok d.ports (hopen d (List.mem_cons_self ..)) with ⟨t, ht⟩
     unfold findJunction
     rw [ht]
-    by_cases c : t.isJunction = true
-    · right; exact ⟨d, List.mem_cons_self .., by simp [c]⟩
+    by_cases c : (t.isJunction && d.ports.hasFreeDownstream) = true
+    · right; exact ⟨d, List.mem_cons_self .., by simp only [if_pos c]⟩
     · rcases ih (fun x hx => hopen x (List.mem_cons_of_mem _ hx)) with h | ⟨x, hx, h⟩
-      · left; simp [c, h]
-      · right; exact ⟨x, List.mem_cons_of_mem _ hx, by simp [c, h]⟩
+      · left; simp only [if_neg c]; exact h
+      · right; exact ⟨x, List.mem_cons_of_mem _ hx, by simp only [if_neg c]; exact h⟩
 
 theorem findParent_nil : findParent [] = .ok none := rfl
 
